@@ -247,6 +247,13 @@ func runCheck(id, tier string, updateBaseline bool, only string) int {
 					r = r2
 				}
 			}
+			if r.Status != "unsat" && r.Status != "sat" {
+				// last resort: case split on the choice variable of a select statement (each case is
+				// a strengthening of the query; all cases together are exhaustive)
+				if r3, ok := caseSplitOnChoice(q, timeout); ok {
+					r = r3
+				}
+			}
 			o.Result = r
 		}()
 	}
